@@ -386,4 +386,131 @@ def estimate_and_simulate_native(B):
         if not (np.allclose(S.A, A_true, atol=1e-5) and np.allclose(np.asarray(S.c).flatten(), c_true, atol=1e-5)):
             B.fail("noise-free data generated by a VAR do not return that VAR", {"order": order, "A": np.asarray(S.A).tolist(), "A_true": A_true.tolist()})
             return
+    # two variants of the data: each variant is estimated and simulated on its own
+    B.case()
+    db = ir.Databox()
+    for nme in ("a", "b"):
+        db[nme] = ir.Series(num_variants=2, periods=span, values=rng.normal(size=(T, 2)))
+    try:
+        m = ir.RedVAR(("a", "b"), order=2, intercept=True)
+        out = m.estimate(db, span, num_variants=2)
+        sim = m.simulate(out, span[2:])
+    except Exception as ex:
+        B.fail(f"two variants: exception {type(ex).__name__}: {ex}", {})
+        return
+    for nme in ("a", "b"):
+        got, want = sim[nme].get_data(span[2:]), db[nme].get_data(span[2:])
+        if got.shape != want.shape or not np.allclose(got, want, atol=1e-8):
+            B.fail("two variants: simulating with the estimated residuals does not return the data of every variant", {"name": nme, "max_abs_diff": float(np.abs(got - want).max()) if got.shape == want.shape else None})
+            return
     return {"exhaustive_within_bound": False}
+
+
+# ------------------------------------------------------------------------------ prior (dummy) observations
+from irispie.red_vars import prior_obs as PO
+PP = "irispie.red_vars.prior_obs:"
+
+
+def _minnesota_spec(n, order, nexo, icpt, rho, mu, kappa):
+    """dummy observations of the Minnesota prior: for every variable i and lag l = 1..p one observation in which only
+    lag l of variable i is 'observed', with weight mu * l**kappa (the prior tightens with the lag; lag 1 has weight mu),
+    the regressand being mu*rho for the first lag of the variable itself and 0 otherwise; exogenous and intercept 0"""
+    cols = n * order
+    lhs = np.zeros((n, cols))
+    rhs = np.zeros((n * order + nexo + int(icpt), cols))
+    for l in range(1, order + 1):
+        for i in range(n):
+            k = (l - 1) * n + i
+            rhs[k, k] = mu * l ** kappa
+            if l == 1:
+                lhs[i, k] = mu * rho
+    return lhs, rhs
+
+
+def _mean_spec(n, order, nexo, icpt, mean, mu):
+    """one dummy observation (only with an intercept): every lag and the regressand equal mu*mean, the intercept regressor mu"""
+    cols = int(icpt)
+    lhs = np.zeros((n, cols))
+    rhs = np.zeros((n * order + nexo + int(icpt), cols))
+    if icpt:
+        lhs[:, 0] = mu * np.asarray(mean)
+        rhs[:n * order, 0] = np.tile(mu * np.asarray(mean), order)
+        rhs[-1, 0] = mu
+    return lhs, rhs
+
+
+@contract("C18", targets=[PP + "MinnesotaPriorObs.generate_y0", PP + "MinnesotaPriorObs.generate_y1", PP + "MinnesotaPriorObs.generate_x", PP + "MinnesotaPriorObs.generate_k",
+                          PP + "MeanPriorObs.generate_y0", PP + "MeanPriorObs.generate_y1", PP + "MeanPriorObs.generate_x", PP + "MeanPriorObs.generate_k",
+                          PP + "PriorObs.generate_lhs", PP + "PriorObs.generate_rhs", PP + "arrays_from_prior_obs", PP + "_ensure_array"],
+          instances=[(order, nexo, icpt, kappa) for order in (1, 2, 3) for nexo in (0, 1) for icpt in (True, False) for kappa in (0, 1, 2)], cross=1)
+def prior_observations_have_the_documented_layout(K, order, nexo, icpt, kappa):
+    n = 2
+    from irispie.red_vars._dimensions import Dimensions
+    dims = Dimensions(num_endogenous=n, order=order, has_intercept=icpt, num_exogenous=nexo)
+    rho, mu, mean, mu_m = 0.75, 2.0, [1.0, -2.0], 0.5
+    pri = [PO.MinnesotaPriorObs(rho=rho, mu=mu, kappa=kappa), PO.MeanPriorObs(mean=np.array(mean), mu=mu_m)]
+    lhs, rhs = K.call(PO.arrays_from_prior_obs, [K.lift(p) for p in pri], dims, 1)
+    l1, r1 = _minnesota_spec(n, order, nexo, icpt, rho, mu, kappa)
+    l2, r2 = _mean_spec(n, order, nexo, icpt, mean, mu_m)
+    wl, wr = np.hstack([l1, l2]), np.hstack([r1, r2])
+    K.ensure("shapes: one column per dummy observation", K.And(K.shape(lhs) == wl.shape, K.shape(rhs) == wr.shape))
+    K.ensure("regressands of the dummy observations", K.And(*[K.real_eq(K.cell_val(K.cell(lhs, i, j)), float(wl[i, j])) for i in range(wl.shape[0]) for j in range(wl.shape[1])]))
+    K.ensure("regressors of the dummy observations (lag l weighted by l**kappa, l = 1..p)", K.And(*[K.real_eq(K.cell_val(K.cell(rhs, i, j)), float(wr[i, j])) for i in range(wr.shape[0]) for j in range(wr.shape[1])]))
+
+
+@contract("C18", targets=[PE + "_estimate_variant", PP + "arrays_from_prior_obs"], instances=[(1, 0, True), (2, 0, True), (1, 1, False)], cross=2, opts={"max_paths": 300})
+def estimate_with_prior_observations_is_least_squares_on_the_stacked_sample(K, order, nexo, icpt):
+    """With prior dummy observations the estimate is the least-squares solution of the sample (complete periods) stacked
+    with the dummy observations: residuals of sample AND dummy observations together are orthogonal to every regressor."""
+    T = 2 * order + nexo + 4
+    m, ds, ds_v = _setup(order, nexo, icpt, T)
+    inv = m._invariant
+    yq, xq = list(inv.get_endogenous_qids()), list(inv.get_exogenous_qids())
+    n = len(yq)
+    native = ds_v.get_data_variant()
+    nrows, ncols = native.shape
+    X = K.array_cells([[K.real(f"d_{r}_{c}", sample=(-3, 3)) for c in range(ncols)] for r in range(nrows)])
+    X0 = K.snapshot(X)
+    dsl = K.lift(ds_v)
+    K.set_variant_data(dsl, ds_v, X)
+    kappa, rho, mu = 1, 0.75, 2.0
+    pri = [PO.MinnesotaPriorObs(rho=rho, mu=mu, kappa=kappa)]
+    v = K.call(EST._estimate_variant, K.lift(inv), dsl, prior_obs=[K.lift(p) for p in pri], dof_correction=False, omit_missing=True)
+    sysm = K.attr(v, "system")
+    A, B, c = K.attr(sysm, "A"), K.attr(sysm, "B"), K.attr(sysm, "c")
+    val = lambda r, cc: K.cell_val(K.cell(X0, r, cc))      # noqa: E731
+    beta = lambda i, k: (K.cell_val(K.cell(A, i, k)) if k < n * order else K.cell_val(K.cell(B, i, k - n * order)) if k < n * order + nexo else K.cell_val(K.cell(c, i)))      # noqa: E731
+    nreg = n * order + nexo + int(icpt)
+    W = list(range(order, ncols))
+    z = lambda k, t: (val(yq[k % n], t - 1 - k // n) if k < n * order else val(xq[k - n * order], t) if k < n * order + nexo else 1)      # noqa: E731
+    dl, dr = _minnesota_spec(n, order, nexo, icpt, rho, mu, kappa)
+    for i in range(n):
+        for k in range(nreg):
+            sample = sum((val(yq[i], t) - sum(beta(i, q) * z(q, t) for q in range(nreg))) * z(k, t) for t in W)
+            dummy = sum((float(dl[i, d]) - sum(beta(i, q) * float(dr[q, d]) for q in range(nreg) if dr[q, d])) * float(dr[k, d]) for d in range(dl.shape[1]) if dr[k, d])
+            K.ensure(f"normal equation of equation {i}, regressor {k}, over sample and dummy observations", K.real_eq(sample + dummy, 0))
+
+
+# ------------------------------------------------------------------------------ every variant is simulated with its own system
+@contract("C18", targets=[PS + "_simulate", "irispie.has_variants:Mixin.iter_variants", "irispie.has_variants:Mixin.new_with_shallow_variants"], instances=[(2,), (3,)], cross=0, opts={"max_paths": 200})
+def each_variant_is_simulated_with_its_own_estimates(K, nv):
+    """_simulate hands the flat simulator, for variant i, a single-variant view of the model whose system is the i-th
+    estimate and the i-th variant of the data (the simulator reads the solution from that view)."""
+    span = ir.qq(2000, 1) >> ir.qq(2003, 4)
+    rng = np.random.default_rng(3)
+    db = ir.Databox()
+    for nme in ("a", "b"):
+        db[nme] = ir.Series(num_variants=nv, periods=span, values=rng.normal(size=(len(span), nv)))
+    m = ir.RedVAR(("a", "b"), order=1, intercept=True)
+    out = m.estimate(db, span, num_variants=nv)
+    K.ensure("the estimates of the variants differ (otherwise the contract says nothing)", all(not np.allclose(m._variants[0].system.A, m._variants[i].system.A) for i in range(1, nv)))
+    ml = K.lift(m)
+    calls = K.capture(FSIM, "simulate_flat", lambda: K.call(SIM._simulate, ml, K.lift(out), tuple(span[2:6]), residuals_from_data=True, draw_residuals=None,
+                                                            progress_bar_settings=dict(title="")))
+    K.ensure("one simulator call per variant", len(calls) == nv)
+    for i, (args, kwargs) in enumerate(calls):
+        view = args[0]
+        vs = list(K.items(K.attr(view, "_variants")))
+        K.ensure(f"call {i}: the model view holds exactly one variant", len(vs) == 1)
+        got = K.attr(K.attr(vs[0], "system"), "A") if len(vs) == 1 else None
+        K.ensure(f"call {i}: ... and it is the {i}-th estimate", got is not None and np.allclose(np.asarray(K.concrete_array(got)), m._variants[i].system.A))
